@@ -40,6 +40,9 @@ type c13Case struct {
 	Hints int `json:"early_hints,omitempty"`
 	// SlowDown / SlowUp: the response (request) body takes 40 virtual seconds to send - longer than
 	// the 30s target timeout, which bounds the wait for the response *headers* only
+	// CutBody: the target dies in the middle of a chunked response body: the client must not be
+	// given a response that looks complete
+	CutBody  bool `json:"target_dies_mid_body,omitempty"`
 	SlowDown bool `json:"slow_response_body,omitempty"`
 	SlowUp   bool `json:"slow_request_body,omitempty"`
 }
@@ -197,6 +200,9 @@ func c13Gen(rng *rand.Rand, idx, ncases int) c13Scenario {
 		}
 		if rng.IntN(8) == 0 {
 			c.SlowDown = c.RBody >= 3
+		}
+		if rng.IntN(10) == 0 && c.RFrame == "chunked" && c.RBody >= 23 && c.Method != "HEAD" && c.Svc != "buf" {
+			c.CutBody, c.SlowDown = true, false
 		}
 		if rng.IntN(8) == 0 {
 			c.SlowUp = c.Body >= 3
@@ -386,6 +392,13 @@ func (e *c13Echo) serve(ft *FakeTarget, c net.Conn) {
 		for i := 0; i < cs.Hints; i++ {
 			fmt.Fprintf(c, "HTTP/1.1 103 Early Hints\r\nLink: </style-%d.css>; rel=preload\r\n\r\n", i)
 		}
+		if cs.CutBody && !noBody {
+			var msg bytes.Buffer
+			writeRaw(&msg, sent.Line, wire, body, 3)
+			b := msg.Bytes()
+			c.Write(b[:len(b)-len(body)/2-10]) // stops inside a chunk, then the connection goes away
+			return
+		}
 		if cs.SlowDown && !noBody {
 			var msg bytes.Buffer
 			writeRaw(&msg, sent.Line, wire, body, chunks)
@@ -476,6 +489,14 @@ func c13Run(t *testing.T, run *Run, sc c13Scenario) {
 				cc.Hdr[i][1] = trunc(cc.Hdr[i][1], 100)
 			}
 			run.Violate(sig, fmt.Sprintf(format, a...), cc, tr)
+		}
+		if cs.CutBody {
+			if rerr == nil && resp != nil && resp.BodyErr == "" {
+				fail("truncation-presented-as-complete", "case %d: the target died in the middle of its chunked body (%d bytes); the client received a complete-looking response: %s, %d body bytes", cs.ID, cs.RBody, resp.Line, len(resp.Body))
+				return
+			}
+			run.Count("cut_bodies_visibly_cut", 1)
+			continue
 		}
 		if rerr != nil || resp == nil {
 			fail("no-response", "case %d: no response: %v", cs.ID, rerr)
